@@ -89,36 +89,59 @@ def category(ctx, lexpr, serde):
             r.violation(conv.path, "io-kind:%s" % name,
                         "converting ErrorCode::%s to io::Error yields %s; documented is %s" % (name, sorted(kinds), wantk), conv.loc())
 
-    # construction sites of ErrorImpl
+    # construction of ErrorImpl: only inside the error module, and the two crate-visible constructors build what
+    # their names say (evaluated abstractly, so helper constructors such as a shared `Error::new` are looked through)
     n = 0
     for fn in lexpr.fns:
         for bi, b in enumerate(fn.blocks):
             for s in b["stmts"]:
                 if s["k"] == "assign" and s["rv"]["k"] == "agg" and s["rv"].get("adt") == "parse::error::ErrorImpl":
                     n += 1
-                    if fn.path not in ("parse::error::Error::syntax", "parse::error::Error::io"):
+                    if not fn.file.endswith("parse/error.rs"):
                         r.violation(fn.path, "errorimpl-built-elsewhere",
-                                    "%s builds an ErrorImpl outside Error::syntax / Error::io" % fn.path, fn.loc(s.get("line")))
-                        continue
-                    defs = common.defs_of(fn)
-                    names = [x["name"] for x in lexpr.adts["parse::error::ErrorImpl"]["variants"][0]["fields"]]
-                    loc = s["rv"]["fields"][names.index("location")]
-                    o = common.origin(fn, defs, loc)
-                    is_some = o["k"] == "agg" and o["rv"].get("adt", "").endswith("Option") and o["rv"]["variant"] == 1
-                    is_none = o["k"] == "agg" and o["rv"].get("adt", "").endswith("Option") and o["rv"]["variant"] == 0
-                    if fn.path.endswith("::syntax"):
-                        if is_some:
-                            r.ok("Error::syntax stores Some(Location{line, column})", fn, s.get("line"))
-                        else:
-                            r.violation(fn.path, "syntax-without-location", "Error::syntax does not store a location", fn.loc())
-                    else:
-                        co = common.origin(fn, defs, s["rv"]["fields"][names.index("code")])
-                        is_io = co["k"] == "agg" and co["rv"].get("vname") == "Io"
-                        if is_io and (is_none or is_some):
-                            r.ok("Error::io stores ErrorCode::Io(error)", fn, s.get("line"))
-                        else:
-                            r.violation(fn.path, "io-ctor", "Error::io no longer stores ErrorCode::Io(error)", fn.loc())
+                                    "%s builds an ErrorImpl outside the error module" % fn.path, fn.loc(s.get("line")))
     r.floor("errorimpl-sites", n)
+    einl = lambda a, b: b.crate == lexpr.name and b.file.endswith("parse/error.rs")
+    names = [x["name"] for x in lexpr.adts["parse::error::ErrorImpl"]["variants"][0]["fields"]]
+
+    def built(fnp, args):
+        g = lexpr.fn(fnp)
+        if g is None:
+            r.anchor_missing(fnp)
+            return None, None
+        S = sim.Sim([lexpr], inline=einl)
+        outs = []
+        for p in S.run(g, args=args):
+            if p.end != "return":
+                continue
+            v = p.ret
+            # Error { err: Box<ErrorImpl> }: find the ErrorImpl aggregate handed to Box::new
+            impl = None
+            if isinstance(v, Adt) and v.fields and isinstance(v.fields[0], Adt) and v.fields[0].adt == "parse::error::ErrorImpl":
+                impl = v.fields[0]          # the simulator treats Box::new as transparent
+            outs.append(impl)
+        return g, outs
+
+    code_arg = Adt("parse::error::ErrorCode", 1, [], "probe")
+    g, outs = built("parse::error::Error::syntax", {1: code_arg, 2: 7, 3: 9})
+    if g is not None:
+        okv = outs and all(o is not None and o.fields[names.index("code")] is code_arg
+                           and isinstance(o.fields[names.index("location")], Adt) and o.fields[names.index("location")].variant == 1
+                           for o in outs)
+        if okv:
+            r.ok("Error::syntax stores the given code and Some(Location{line, column})", g)
+        else:
+            r.violation(g.path, "syntax-without-location", "Error::syntax does not store its code with a location", g.loc())
+    ioe = Opq("io_error")
+    g, outs = built("parse::error::Error::io", {1: ioe})
+    if g is not None:
+        okv = outs and all(o is not None and isinstance(o.fields[names.index("code")], Adt)
+                           and o.fields[names.index("code")].vname == "Io" and o.fields[names.index("code")].fields
+                           and o.fields[names.index("code")].fields[0] is ioe for o in outs)
+        if okv:
+            r.ok("Error::io stores ErrorCode::Io(error)", g)
+        else:
+            r.violation(g.path, "io-ctor", "Error::io no longer stores ErrorCode::Io(error)", g.loc())
     # no caller passes ErrorCode::Io to Error::syntax
     for fn, bi, t in common.iter_calls(lexpr):
         if "parse::error::Error::syntax" in F.callee_names(t):
